@@ -16,7 +16,7 @@
 From Coq Require Import Lia ZifyBool Permutation Sorted.
 From Cassis Require Import Base Heap Schema Canon Reach ReachProofs ReachSpec JsonDoc Json JsonProofs JsonProofs2 JsonLoadProofs
                            Convert ConvertWf ConvertReach.
-From Cassis Require Lex Xmi XmiDoc XmiProofs XmiWf XmiDocOk XmiLoad.
+From Cassis Require Lex Xmi XmiDoc XmiProofs XmiWf XmiDocOk XmiLoad JsonDocOk.
 Open Scope Z_scope.
 
 (* ------------------------------------------------------------------------------------------------ small general facts *)
@@ -209,7 +209,7 @@ Definition Tf (o : oid) : Prop := In o (returned wT).
 Definition Tv (v : val) : Prop := forall x, v = VRef x -> Tf x.
 
 Lemma wf_parts : Xmi.wf_inb s c = true /\ XmiLoad.schema_okb s = true /\ wf_jsonb s c = true /\ ids_distinctb s c = true
-                 /\ refs_wfb s c = true /\ slots_declb s h = true.
+                 /\ refs_wfb s c = true /\ slots_declb s h = true /\ arrays_privateb s c = true.
 Proof.
   pose proof WF as W. unfold wf_convb in W.
   repeat match type of W with (_ && _ = true) => apply andb_prop in W; let H' := fresh "P" in destruct W as [W H'] end.
@@ -424,7 +424,7 @@ Qed.
 (* an object has only declared attributes *)
 Lemma slot_declared o f p : hget h o = Some f -> slot f p <> VNone -> has_feat s (o_type f) p = true.
 Proof.
-  intros Hg Hv. destruct wf_parts as (_ & _ & _ & _ & _ & Hs). unfold slots_declb in Hs. rewrite forallb_forall in Hs.
+  intros Hg Hv. destruct wf_parts as (_ & _ & _ & _ & _ & Hs & _). unfold slots_declb in Hs. rewrite forallb_forall in Hs.
   specialize (Hs _ (hget_In _ _ _ Hg)). cbn [snd] in Hs. rewrite forallb_forall in Hs.
   unfold slot in Hv. destruct (alookup p (o_slots f)) as [v|] eqn:E; [|contradiction]. apply alookup_In in E. exact (Hs _ E).
 Qed.
@@ -556,9 +556,28 @@ Proof. intros (f & A & B) (g & A' & B'). congruence. Qed.
 Lemma has_id_idz o i : has_id o i -> idz o = i.
 Proof. intros (f & A & B). unfold idz. rewrite A, B. reflexivity. Qed.
 
+(* the sofa byte arrays are private (arrays_privateb): each belongs to one sofa, none is found by the traversal *)
+Lemma arrays_once_all : sofa_arrays_once c = sofa_arrays c.
+Proof.
+  destruct wf_parts as (_ & _ & _ & _ & _ & _ & Hp). unfold arrays_privateb in Hp. apply andb_prop in Hp. destruct Hp as [Hn _].
+  apply JsonDocOk.nodupN_NoDup in Hn. unfold sofa_arrays_once.
+  assert (G : forall l seen, NoDup l -> (forall o, In o l -> ~ In o seen) -> odedup seen l = l).
+  { induction l as [|o r IH]; intros seen Hnd Hns; [reflexivity|]. cbn [odedup]. inversion Hnd as [|? ? Hni Hnd']; subst.
+    destruct (omem o seen) eqn:E; [apply JsonProofs.omem_In in E; destruct (Hns o (or_introl eq_refl) E)|].
+    f_equal. apply IH; [exact Hnd'|]. intros o' Ho' Hin. apply in_app_or in Hin. destruct Hin as [Hin|[<-|[]]]; [exact (Hns o' (or_intror Ho') Hin)|exact (Hni Ho')]. }
+  apply G; [exact Hn|intros o _ []].
+Qed.
+Lemma unwritten_all : forall l, (forall io, In io l -> In io (w_all wT)) -> unwritten (sofa_arrays c) l = l.
+Proof.
+  destruct wf_parts as (_ & _ & _ & _ & _ & _ & Hp). unfold arrays_privateb in Hp. apply andb_prop in Hp. destruct Hp as [_ Hf].
+  rewrite ET in Hf. rewrite forallb_forall in Hf. unfold unwritten.
+  induction l as [|io r IH]; intros Hl; [reflexivity|]. cbn [filter]. rewrite (Hf io (Hl io (or_introl eq_refl))). f_equal.
+  apply IH. intros x Hx. apply Hl. right. exact Hx.
+Qed.
 Lemma ids_nodup : NoDup (map s_xid (map v_sofa (c_views c)) ++ map fst (w_all wT) ++ arr_ids).
 Proof.
-  destruct wf_parts as (_ & _ & _ & Hd & _). unfold ids_distinctb in Hd. rewrite ET in Hd. apply znodup_NoDup in Hd. exact Hd.
+  destruct wf_parts as (_ & _ & _ & Hd & _). unfold ids_distinctb in Hd. rewrite ET in Hd. apply znodup_NoDup in Hd.
+  rewrite arrays_once_all, (unwritten_all (w_all wT) (fun io H => H)) in Hd. exact Hd.
 Qed.
 Lemma arr_obj o : In o (sofa_arrays c) ->
   exists f i, hget h o = Some f /\ o_id f = Some i /\ o_type f = T_BYTE_ARRAY /\ obj_okb s c f = true.
@@ -619,7 +638,8 @@ Qed.
 Lemma cc_parts : exists fss sofas, mapM (canon_item s c) objsJ = Ok fss /\ mapM (canon_sofa c) (c_views c) = Ok sofas /\
   cc = mkCcas (sort_by cs_id sofas) (sort_by fst fss).
 Proof.
-  pose proof EJ as H. unfold canon_json in H. rewrite ET in H. cbn [bind] in H. unfold canon_of in H.
+  pose proof EJ as H. unfold canon_json in H. rewrite ET in H. cbn [bind] in H. unfold canon_of, listed in H.
+  rewrite arrays_once_all, (unwritten_all (sort_ids (w_all wT)) (fun io Hio => proj1 (sort_ids_In io (w_all wT)) Hio)) in H.
   change (fun o : oid => match hget h o with
                          | Some f => match o_id f with Some i => do cf <- canon_fs s c f ;; Ok (i, cf) | None => Err EValue end
                          | None => Err EAttribute end) with (canon_item s c) in H.
@@ -1496,7 +1516,8 @@ Proof.
 Qed.
 Lemma canon_json_exists : exists j, canon_json s c = Ok j.
 Proof.
-  unfold canon_json. rewrite ET. cbn [bind]. unfold canon_of.
+  unfold canon_json. rewrite ET. cbn [bind]. unfold canon_of, listed.
+  rewrite arrays_once_all, (unwritten_all (sort_ids (w_all wT)) (fun io Hio => proj1 (sort_ids_In io (w_all wT)) Hio)).
   change (fun o : oid => match hget h o with
                          | Some f => match o_id f with Some i => do cf <- canon_fs s c f ;; Ok (i, cf) | None => Err EValue end
                          | None => Err EAttribute end) with (canon_item s c).
@@ -1567,7 +1588,7 @@ Proof.
     { unfold canon_json in EJ. destruct (find_all_fs true s c) as [wT| |]; try discriminate. exists wT. reflexivity. }
     destruct HT as (wT & ET). rewrite (written_eq s c wT wF WF ET EF j EJ). cbn [bind fst snd]. unfold Xmi.canon_of.
     destruct (XmiDocOk.mapM_total (Xmi.canon_sofa c) (c_views c)) as (sofas & Hs).
-    { intros v Hv. destruct (sofa_in_cc s c wT ET j EJ v Hv) as (cs & _ & Hcs). exists cs. exact (canon_sofa_agree s c wT WF ET v cs Hv Hcs). }
+    { intros v Hv. destruct (sofa_in_cc s c wT WF ET j EJ v Hv) as (cs & _ & Hcs). exists cs. exact (canon_sofa_agree s c wT WF ET v cs Hv Hcs). }
     rewrite Hs. cbn [bind].
     destruct (XmiDocOk.mapM_total (Xmi.canon_fs s c) (sort_ids (allX c wF))) as (fss & Hf).
     { intros [i o] Hin. apply (proj1 (sort_ids_In _ _)) in Hin. apply (proj1 (allX_spec s c wT wF WF ET EF i o)) in Hin. destruct Hin as [HXo Hi].
